@@ -18,7 +18,7 @@ import (
 // validation of the "free of data races" clauses of C08/C14 (a statement about the Go memory model
 // that no functional model expresses); it is not part of any proof.
 func init() {
-	register(&Suite{Name: "racy", Gen: genRacy, Exec: execRacy})
+	register(&Suite{Name: "racy", Gen: genRacy, Exec: execRacy, Isolated: true})
 	if len(os.Args) > 2 && os.Args[1] == "racechild" {
 		runRacyScenario(os.Args[2:])
 		os.Exit(0)
